@@ -116,11 +116,25 @@ def install(E):
         s = e.tobytes(data); tr = tree_of(e, s)
         return tr[1] if tr else ('raw', s)
 
+    def tkey(n):
+        if isinstance(n, (tuple, list)): return tuple(tkey(x) for x in n)
+        if isinstance(n, StrV): return ('s', n.c) if n.c is not None else ('st', n.t.get_id())
+        if isinstance(n, BytesV): return ('b',) + tkey(n.s)
+        if z3.is_expr(n): return ('z', n.get_id())
+        if isinstance(n, (int, bool, float, str)) or n is None: return n
+        return ('o', id(n))
     def marshal(e, a, cbor=False):
         x = a[0]
         k = e.P.g['jsoncnt'] = e.P.g.get('jsoncnt', 0) + 1
         tree = ('null',) if x is None else enc(e, x.v, x.t, False, cbor)
+        # the encoder is a function: structurally identical trees give the identical byte string
+        memo = e.P.g.setdefault('marshal_memo', {})
+        mk = (cbor, tkey(tree))
+        if mk in memo:
+            e.P.trace.append('marshal#%d=memo' % k)
+            return (BytesV(memo[mk][0]), None)
         s = e.newstr('%s_out%d' % ('cbor' if cbor else 'json', k))
+        memo[mk] = (s, tree)
         e.assume(z3.UGE(slen(s.t), 1))
         attach(e, s, tree, 'cbor' if cbor else 'json')
         e.P.trace.append('marshal#%d' % k)
@@ -133,6 +147,10 @@ def install(E):
     def dec(e, node, t, cur, cbor):
         """returns the decoded value of type t (cur = current value, kept on null / missing)"""
         d0 = e.types[t]
+        if t == 'encoding/json.RawMessage':
+            sub = e.newstr('json_raw%d' % next(fresh)); attach(e, sub, node)
+            e.assume(z3.UGE(slen(sub.t), 1))
+            return BytesV(sub)
         if not cbor and d0['k'] == 'named' and has_method(e, '*' + t, 'UnmarshalJSON'):
             p = Ptr(Box(copyv(cur)))
             sub = e.newstr('json_sub%d' % next(fresh)); attach(e, sub, node)
@@ -271,6 +289,12 @@ def install(E):
         tr = tree_of(e, s)
         pt = dst.t
         tt = e.types[pt]['elem']
+        if e.kind(tt) == 'iface':
+            # Decode(&dst) with dst of type any holding a pointer: encoding/json decodes into what it points to
+            inner = e.load(dst.v)
+            if isinstance(inner, IfaceV) and e.types.get(inner.t, {}).get('k') == 'ptr':
+                return unmarshal(e, [data, inner], cbor)
+            raise Unsupported('json decode into interface value')
         if tr is None:
             mode = e.P.g.get('json_havoc', True)
             bad = e.P.g.setdefault('json_invalid', set())
